@@ -80,3 +80,221 @@ Proof.
   unfold path_join2. apply path_clean_id. assumption.
 Qed.
 
+
+(* ------------------------------------------------------------------ *)
+(* the shape of a cleaned path                                          *)
+Set Implicit Arguments.
+
+Definition slashfree (s : bstr) : Prop := ~ In slash s.
+(* a path element as it may occur in a cleaned path: not empty, not ".", no "/" inside *)
+Definition seg_good (s : bstr) : Prop := is_empty s = false /\ is_dot s = false /\ slashfree s.
+Definition nd (s : bstr) : bool := negb (is_dotdot s).
+(* ".." elements only at the front *)
+Fixpoint dd_front (l : list bstr) : bool :=
+  match l with [] => true | s :: r => if is_dotdot s then dd_front r else forallb nd r end.
+(* the element list of a cleaned path: rooted - no ".." at all; relative - ".." only at the front *)
+Definition normal (rooted : bool) (l : list bstr) : Prop :=
+  Forall seg_good l /\ (if rooted then forallb nd l = true else dd_front l = true).
+Definition render (rooted : bool) (l : list bstr) : bstr :=
+  if rooted then slash :: join_with slash l else match l with [] => [dot] | _ => join_with slash l end.
+
+Lemma split_slashfree p : Forall slashfree (split_on slash p).
+Proof.
+  induction p as [|c r IH]; cbn [split_on].
+  - constructor; [intros []|constructor].
+  - destruct (N.eqb c slash) eqn:E.
+    + constructor; [intros []|exact IH].
+    + destruct (split_on slash r) as [|seg segs]; [constructor; [|constructor]|].
+      * intros [H|[]]. subst c. rewrite N.eqb_refl in E. discriminate.
+      * inversion IH as [|? ? H1 H2]; subst. constructor; [|exact H2].
+        intros [H|H]; [subst c; rewrite N.eqb_refl in E; discriminate|exact (H1 H)].
+Qed.
+
+(* the stack of clean_segs (reversed): if its top is ".." everything below is ".." *)
+Fixpoint st_ok (st : list bstr) : bool :=
+  match st with [] => true | s :: r => if is_dotdot s then forallb is_dotdot r else st_ok r end.
+Definition stack_ok (rooted : bool) (st : list bstr) : Prop :=
+  if rooted then forallb nd st = true else st_ok st = true.
+
+Lemma forallb_rev {A} (f : A -> bool) l : forallb f (rev l) = forallb f l.
+Proof.
+  induction l as [|x l IH]; [reflexivity|]. cbn [rev forallb]. rewrite forallb_app, IH. cbn [forallb].
+  rewrite andb_true_r. apply andb_comm.
+Qed.
+
+Lemma dd_front_snoc a s : dd_front (a ++ [s]) = if is_dotdot s then forallb is_dotdot a else dd_front a.
+Proof.
+  induction a as [|x a IH]; cbn [app dd_front forallb].
+  - destruct (is_dotdot s); reflexivity.
+  - destruct (is_dotdot x) eqn:Ex.
+    + rewrite IH. destruct (is_dotdot s); reflexivity.
+    + rewrite forallb_app. cbn [forallb]. unfold nd at 2. destruct (is_dotdot s); cbn [negb andb].
+      * rewrite andb_false_r. reflexivity.
+      * rewrite !andb_true_r. reflexivity.
+Qed.
+
+Lemma st_ok_rev st : dd_front (rev st) = st_ok st.
+Proof.
+  induction st as [|s st IH]; [reflexivity|]. cbn [rev st_ok]. rewrite dd_front_snoc, IH, forallb_rev. reflexivity.
+Qed.
+
+Lemma good_not_empty_dot s : seg_good s -> (is_empty s || is_dot s) = false.
+Proof. intros (A & B & _). rewrite A, B. reflexivity. Qed.
+
+Lemma clean_segs_normal rooted : forall segs st,
+  Forall slashfree segs -> Forall seg_good st -> stack_ok rooted st -> normal rooted (clean_segs rooted segs st).
+Proof.
+  induction segs as [|s r IH]; intros st Hs Hg Hk; cbn [clean_segs].
+  - split; [apply Forall_rev; exact Hg|]. destruct rooted; cbn [stack_ok] in Hk.
+    + rewrite forallb_rev. exact Hk.
+    + rewrite st_ok_rev. exact Hk.
+  - inversion Hs as [|? ? Hs1 Hs2]; subst.
+    destruct (is_empty s || is_dot s) eqn:E; [apply IH; assumption|].
+    apply orb_false_iff in E. destruct E as [E1 E2].
+    assert (G : seg_good s) by (repeat split; assumption).
+    destruct (is_dotdot s) eqn:Ed.
+    + destruct st as [|top rest].
+      * destruct rooted; [apply IH; assumption|]. apply IH; [assumption|constructor; [exact G|constructor]|].
+        cbn [stack_ok st_ok]. rewrite Ed. reflexivity.
+      * destruct (is_dotdot top) eqn:Et.
+        -- apply IH; [assumption|constructor; assumption|]. destruct rooted; cbn [stack_ok] in *.
+           ++ cbn [forallb] in Hk. unfold nd at 1 in Hk. rewrite Et in Hk. discriminate.
+           ++ cbn [st_ok] in *. rewrite Et in Hk. rewrite Ed. cbn [forallb]. rewrite Et, Hk. reflexivity.
+        -- inversion Hg; subst. apply IH; [assumption|assumption|]. destruct rooted; cbn [stack_ok] in *.
+           ++ cbn [forallb] in Hk. apply andb_true_iff in Hk. apply Hk.
+           ++ cbn [st_ok] in Hk. rewrite Et in Hk. exact Hk.
+    + apply IH; [assumption|constructor; assumption|]. destruct rooted; cbn [stack_ok] in *.
+      * cbn [forallb]. unfold nd at 1. rewrite Ed. exact Hk.
+      * cbn [st_ok]. rewrite Ed. exact Hk.
+Qed.
+
+(* THE SHAPE: every cleaned path is the rendering of a normal element list *)
+Theorem path_clean_shape p :
+  let rooted := match p with c :: _ => N.eqb c slash | [] => false end in
+  exists l, normal rooted l /\ path_clean p = render rooted l.
+Proof.
+  destruct p as [|c r]; cbn zeta.
+  - exists []. split; [split; [constructor|reflexivity]|reflexivity].
+  - set (rooted := N.eqb c slash). set (l := clean_segs rooted (split_on slash (c :: r)) []).
+    assert (Nl : normal rooted l).
+    { apply clean_segs_normal; [apply split_slashfree|constructor|destruct rooted; reflexivity]. }
+    exists l. split; [exact Nl|]. unfold path_clean. fold rooted. fold l. unfold render.
+    destruct rooted; [reflexivity|]. destruct l as [|s l']; [reflexivity|].
+    destruct Nl as [Hg _]. inversion Hg as [|? ? (A & _) _]; subst.
+    destruct (join_with slash (s :: l')) eqn:J; [|reflexivity]. exfalso.
+    cbn [join_with] in J. destruct s; [discriminate A|]. destruct l'; discriminate J.
+Qed.
+
+(* ---- idempotence *)
+Lemma dd_front_app_dd a : forall s r, dd_front (a ++ s :: r) = true -> is_dotdot s = true -> forallb is_dotdot a = true.
+Proof.
+  induction a as [|x a IH]; intros s r H Hs; [reflexivity|]. cbn [app dd_front forallb] in *.
+  destruct (is_dotdot x) eqn:Ex; [apply (IH _ _ H Hs)|]. exfalso.
+  rewrite forallb_app in H. cbn [forallb] in H. unfold nd at 2 in H. rewrite Hs in H. cbn in H.
+  rewrite andb_false_r in H. discriminate.
+Qed.
+
+Lemma clean_segs_normal_id rooted : forall l st, normal rooted (rev st ++ l) -> clean_segs rooted l st = rev st ++ l.
+Proof.
+  induction l as [|s r IH]; intros st N; cbn [clean_segs]; [rewrite app_nil_r; reflexivity|].
+  assert (N' : normal rooted (rev (s :: st) ++ r)) by (cbn [rev]; rewrite <- app_assoc; exact N).
+  destruct N as [Hg Hd]. apply Forall_app in Hg. destruct Hg as [_ Hg]. inversion Hg as [|? ? G _]; subst.
+  rewrite (good_not_empty_dot G).
+  destruct (is_dotdot s) eqn:Ed.
+  - destruct rooted.
+    { rewrite forallb_app in Hd. cbn [forallb] in Hd. unfold nd at 2 in Hd. rewrite Ed in Hd. cbn in Hd.
+      rewrite andb_false_r in Hd. discriminate. }
+    pose proof (dd_front_app_dd _ _ _ Hd Ed) as A. rewrite forallb_rev in A.
+    destruct st as [|top rest].
+    + rewrite (IH [s] N'). cbn [rev app]. reflexivity.
+    + cbn [forallb] in A. apply andb_true_iff in A. destruct A as [A _]. rewrite A.
+      rewrite (IH (s :: top :: rest) N'). cbn [rev]. rewrite <- !app_assoc. reflexivity.
+  - rewrite (IH (s :: st) N'). cbn [rev]. rewrite <- app_assoc. reflexivity.
+Qed.
+
+Lemma split_slashfree_one s : slashfree s -> split_on slash s = [s].
+Proof.
+  induction s as [|c r IH]; intros H; [reflexivity|]. cbn [split_on].
+  destruct (N.eqb c slash) eqn:E; [apply N.eqb_eq in E; subst c; contradiction H; left; reflexivity|].
+  rewrite IH; [reflexivity|]. intros Hin. apply H. right. exact Hin.
+Qed.
+
+Lemma split_join l : l <> [] -> Forall slashfree l -> split_on slash (join_with slash l) = l.
+Proof.
+  induction l as [|s r IH]; intros Hn Hf; [congruence|]. inversion Hf as [|? ? H1 H2]; subst.
+  cbn [join_with]. destruct r as [|s' r']; [apply split_slashfree_one; exact H1|].
+  rewrite split_app, (split_slashfree_one H1), IH; [reflexivity|discriminate|exact H2].
+Qed.
+
+Lemma good_slashfree l : Forall seg_good l -> Forall slashfree l.
+Proof. intros H. eapply Forall_impl; [|exact H]. intros s (_ & _ & F). exact F. Qed.
+
+Lemma path_clean_unrooted j c t : j = c :: t -> N.eqb c slash = false ->
+  path_clean j = let out := join_with slash (clean_segs false (split_on slash j) []) in
+                 match out with [] => [dot] | _ => out end.
+Proof. intros -> E. unfold path_clean. rewrite E. reflexivity. Qed.
+
+Lemma render_clean rooted l : normal rooted l -> path_clean (render rooted l) = render rooted l.
+Proof.
+  intros N. pose proof (good_slashfree (proj1 N)) as Sf. destruct rooted; unfold render.
+  - unfold path_clean. rewrite N.eqb_refl. cbn [split_on]. rewrite N.eqb_refl. cbn [clean_segs is_empty orb].
+    destruct l as [|s r].
+    + reflexivity.
+    + rewrite split_join by (try discriminate; exact Sf).
+      rewrite (@clean_segs_normal_id true (s :: r) []) by exact N. reflexivity.
+  - destruct l as [|s r]; [vm_compute; reflexivity|].
+    destruct N as [Hg Hd]. inversion Hg as [|? ? (A & B & F) Hg']; subst.
+    destruct s as [|c s']; [discriminate A|].
+    assert (Ec : N.eqb c slash = false).
+    { destruct (N.eqb c slash) eqn:E; [|reflexivity]. apply N.eqb_eq in E. subst c. contradiction F. left. reflexivity. }
+    assert (J : exists t, join_with slash ((c :: s') :: r) = c :: t).
+    { cbn [join_with]. destruct r; [eauto|]. cbn [app]. eauto. }
+    destruct J as (t & J).
+    change (path_clean (join_with slash ((c :: s') :: r)) = join_with slash ((c :: s') :: r)).
+    rewrite (path_clean_unrooted J Ec). cbn zeta.
+    rewrite split_join by (try discriminate; exact Sf).
+    rewrite (@clean_segs_normal_id false ((c :: s') :: r) []) by (split; assumption).
+    cbn [rev app]. rewrite J. reflexivity.
+Qed.
+
+Lemma render_rooted rooted l : normal rooted l ->
+  match render rooted l with c :: _ => N.eqb c slash | [] => false end = rooted.
+Proof.
+  intros [Hg _]. destruct rooted; unfold render; [reflexivity|].
+  destruct l as [|s r]; [reflexivity|]. inversion Hg as [|? ? (A & B & F) _]; subst.
+  destruct s as [|c s']; [discriminate A|]. cbn [join_with].
+  assert (Ec : N.eqb c slash = false).
+  { destruct (N.eqb c slash) eqn:E; [|reflexivity]. apply N.eqb_eq in E. subst c. contradiction F. left. reflexivity. }
+  destruct r; cbn [app]; exact Ec.
+Qed.
+
+Theorem path_clean_idem p : path_clean (path_clean p) = path_clean p.
+Proof. destruct (path_clean_shape p) as (l & N & E). cbn zeta in *. rewrite E. apply render_clean. exact N. Qed.
+
+(* the elements of a cleaned path (split at "/"): "/" alone; or, rooted, an empty first element followed
+   by good elements none of which is ".."; or, relative, "." alone or good elements with ".." only at
+   the front.  Hence: no empty element except the leading one of a rooted path (no "//", no trailing
+   "/" unless the path is "/"), no "." element unless the path is ".", ".." only at the front of a
+   relative path *)
+Theorem path_clean_elements p :
+  let rooted := match p with c :: _ => N.eqb c slash | [] => false end in
+  exists l, normal rooted l /\
+    split_on slash (path_clean p) =
+      match rooted, l with
+      | true, [] => [[]; []]            (* "/" *)
+      | true, _ => [] :: l
+      | false, [] => [[dot]]            (* "." *)
+      | false, _ => l
+      end.
+Proof.
+  destruct (path_clean_shape p) as (l & N & E). cbn zeta in *. exists l. split; [exact N|]. rewrite E.
+  pose proof (good_slashfree (proj1 N)) as Sf.
+  destruct (match p with c :: _ => N.eqb c slash | [] => false end); unfold render.
+  - cbn [split_on]. rewrite N.eqb_refl. destruct l as [|s r]; [reflexivity|].
+    rewrite split_join by (try discriminate; exact Sf). reflexivity.
+  - destruct l as [|s r]; [vm_compute; reflexivity|]. apply split_join; [discriminate|exact Sf].
+Qed.
+
+(* path.Join of two elements: idempotent under Clean, and Clean of the "/"-joined non-empty elements *)
+Lemma path_join2_clean a b : path_join2 a b <> [] -> path_clean (path_join2 a b) = path_join2 a b.
+Proof. unfold path_join2. destruct a, b; try congruence; intros _; apply path_clean_idem. Qed.
